@@ -1044,11 +1044,11 @@ def run_emission(ctx: Ctx) -> None:
                 outs = [o for b in bl for o in b['outs']]
                 srcouts = [o for op in ops if op[0] == 'B' for o in op[1]]
                 if len(set(outs)) != len(outs) and not any('\\' in o for o in srcouts):
-                    ctx.violation(f'emission-duplicate-output:{ops!r}'[:120], 'NinjaBuild.write emitted one path as explicit output twice',
+                    ctx.violation(f'emission-duplicate-output:{len(ops)}', 'NinjaBuild.write emitted one path as explicit output twice',
                                   {'ops': ops})
                 for b in bl:
                     if b['rule'] != ['phony'] and (len(b['rule']) != 1 or b['rule'][0] not in rulenames):
-                        ctx.violation(f'emission-undefined-rule:{ops!r}'[:120], 'NinjaBuild.write emitted a build statement whose rule is not emitted',
+                        ctx.violation(f'emission-undefined-rule:{len(ops)}', 'NinjaBuild.write emitted a build statement whose rule is not emitted',
                                       {'ops': ops})
             except ManifestError as e:
                 ctx.notes.append(f'emission text unreadable by the oracle reader: {e} {ops!r}'[:200])
@@ -1135,6 +1135,10 @@ def run(ctx: Ctx) -> None:
     ]
     ctx.extra['programs'] = 0
     ctx.extra['disagreements_checked'] = 0
+    if os.environ.get('VERIF_C04_SIZE') == 'quick':
+        # debugging aid for mutation runs (VERIF_REPO changes the pins, which would force the thorough size)
+        ctx.deep = False
+        ctx.notes.append('VERIF_C04_SIZE=quick: sizes forced to the quick tier')
     import time
     t = [time.time()]
 
